@@ -109,6 +109,7 @@ type SimNode struct {
 	constructing    bool
 	isObserver      bool
 	quorumChecked   map[string]bool
+	fameChecked     map[string]bool
 	roundChecked    map[int]bool
 	lagCounted      map[int]bool
 	explicitSuspend bool
